@@ -148,13 +148,14 @@ def hyp_campaign(ctx, name, strategy, prop, examples, seed_, case_to_json=None, 
     import hypothesis
     from hypothesis import given, settings, HealthCheck, Phase
 
-    state = {'last_fail': None}
+    state = {'last_fail': None, 'last_input': None}
 
     def wrapped(case):
         try:
             prop(case, ctx)
         except Violation as v:
             state['last_fail'] = v
+            state['last_input'] = case
             raise
 
     test = settings(max_examples=examples, database=None, deadline=None, derandomize=False, report_multiple_bugs=False,
@@ -164,23 +165,28 @@ def hyp_campaign(ctx, name, strategy, prop, examples, seed_, case_to_json=None, 
         test()
     except Violation as v:
         v = state['last_fail'] or v
-        # replay the minimal case three times without the library
+        inp = state['last_input']
+        # replay the minimal generated input three times without the library
         fails = 0
         sub = Ctx(ctx.pid)
         for _ in range(3):
             try:
-                prop(v.case, sub)
+                prop(inp, sub)
             except Violation:
                 fails += 1
             except Exception:
-                pass
-        rec = dict(campaign=name, why=v.why, case=(case_to_json(v.case) if case_to_json else v.case), observed=v.observed,
-                   expected=v.expected, refails=fails)
+                fails += 1      # a check that cannot even re-run its own minimal case must not hide the failure
+                ctx.notes.append('replay of the minimal case raised: ' + traceback.format_exc()[-300:])
+        try:
+            cj = case_to_json(inp) if case_to_json else v.case
+        except Exception:
+            cj = v.case
+        rec = dict(campaign=name, why=v.why, case=cj, observed=v.observed, expected=v.expected, refails=fails)
         if fails == 3:
             ctx.violations.append(rec)
         else:
             ctx.inconclusive += 1
-            ctx.notes.append('flaky candidate in %s (%d/3 refails): %s' % (name, fails, v.why))
+            ctx.notes.append('flaky candidate in %s (%d/3 refails): %s | case %s | observed %s' % (name, fails, v.why, str(rec['case'])[:300], str(v.observed)[:300]))
     except hypothesis.errors.Unsatisfiable:
         ctx.notes.append('campaign %s: unsatisfiable strategy' % name)
 
@@ -207,8 +213,16 @@ def parallel(pid, tasks, workers=None):
     if workers <= 1 or len(jobs) == 1:
         res = [_worker(j) for j in jobs]
     else:
+        # watchdog: a hung generator or child must end as a loud infrastructure error, never as a silent pass or an endless run
+        limit = float(os.environ.get('VERIF_CHECK_TIMEOUT', '14400'))
         with multiprocessing.get_context('fork').Pool(min(workers, len(jobs))) as pool:
-            res = pool.map(_worker, jobs, chunksize=1)
+            ar = pool.map_async(_worker, jobs, chunksize=1)
+            try:
+                res = ar.get(timeout=limit)
+            except multiprocessing.TimeoutError:
+                pool.terminate()
+                m.errors.append('watchdog: workers did not finish within %.0f s' % limit)
+                res = []
     for e in res:
         if 'error' in e:
             m.errors.append(e['error'])
